@@ -153,6 +153,10 @@ class ScalarGen:
             return f"(({x} {rng.choice(['+', '-'])} {lit(rng.choice([1, 5, 1000, 2147483647, -7]))}) {op} {lit(small_const(rng))})"
         left = self.atom(depth - 1)
         right = self.operand(depth)
+        if rng.random() < 0.12:
+            # the constant (or int variable) on the left: a condition can hold its constant on the right only
+            k = rng.choice(self.sc.ints)[0] if (self.sc.ints and rng.random() < 0.3) else lit(small_const(rng))
+            return f"({k} {op} {left})"
         return f"({left} {op} {right})"
 
     def logic(self, depth: int) -> str:
@@ -384,6 +388,8 @@ def _stateless(rng, names, depth=1):
 def _condition(rng, names):
     a = rng.choice(names)[0]
     b = rng.choice(names)[0] if rng.random() < 0.3 else lit(rng.randint(-3, 6))
+    if rng.random() < 0.15:
+        return f"({lit(rng.randint(-3, 6))} {rng.choice(CMP)} {a})"
     return f"({a} {rng.choice(CMP)} {b})"
 
 
@@ -408,7 +414,13 @@ def gen_gated(seed: int) -> str:
             en = rng.choice(names)[0]
         else:
             en = f"({_condition(rng, names)} && {_condition(rng, names)})"
-        lines.append(f"{m}.write({data}, when={en});")
+        if rng.random() < 0.2:
+            # the enable is a named value that the program goes on using (the write must not rename it)
+            lines.append(f"Signal en{c + 1} = {en};")
+            lines.append(f"{m}.write({data}, when=en{c + 1});")
+            lines.append(f"Signal u{c + 1} = (en{c + 1} {rng.choice(['+', '*', '-'])} {lit(rng.randint(1, 5))});")
+        else:
+            lines.append(f"{m}.write({data}, when={en});")
         for k in range(rng.randint(1, 3)):
             rn = f"r{c + 1}_{k + 1}"
             if rng.random() < 0.5:
@@ -534,6 +546,78 @@ def gen_entities(seed: int) -> str:
 
 
 # ------------------------------------------------------------------ functions (C15) and loops (C16)
+def _scoping_block(rng, names):
+    """C15's scoping clauses: each call site gets its own copy of what the body declares (memories, entities), locals of
+    the callee neither capture nor clobber the caller's names, free names of the callee are the program's, not the
+    caller's"""
+    a0 = names[0][0]
+    b0 = names[1][0] if len(names) > 1 else f"({a0} + 3)"
+    t1, t2, t3 = rng.sample([t for t in VIRT if t not in ("signal-W",) and t not in [n[1] for n in names]], 3)
+    k = rng.randint(1, 4)
+    out = []
+    kind = rng.choice(["localmem", "localmem", "param_proj", "returned_local", "free_names", "free_names", "mem_in_loop"])
+    if kind == "localmem":
+        out += ["func acc(Signal s, int k) {",
+                f'    Memory c: "{t1}";',
+                f'    c.write((s + k) | "{t1}", when=(s > k));',
+                "    return c.read();",
+                "}"]
+        if rng.random() < 0.5:
+            # the caller has a memory of the same name
+            out += [f'Memory c: "{t2}";', f'c.write({a0} | "{t2}", when=({a0} > {k}));']
+            tail = ["Signal mc = c.read();"]
+        else:
+            tail = []
+        out += [f"Signal m1 = acc({a0}, {rng.randint(-2, 3)});", f"Signal m2 = acc({b0}, {rng.randint(-2, 3)});"] + tail
+    elif kind == "param_proj":
+        op = rng.choice(["+", "-", "*"])
+        out += ["func pj(Signal p) {",
+                f'    Signal q = p | "{t1}";',
+                f"    return q {op} p;",
+                "}",
+                f"Signal pj1 = pj({a0} {rng.choice(['+', '*', '-'])} {b0});",
+                f"Signal pj2 = pj({a0});"]
+    elif kind == "returned_local":
+        out += ["func rl(Signal p) {",
+                f"    Signal q = p * {k + 1};",
+                "    Signal z = q + 1;",
+                '    Entity l = place("small-lamp", 20, 9);',
+                f"    l.enable = z > {rng.randint(0, 9)};",
+                "    return q;",
+                "}",
+                f'Signal rl1 = rl({a0}) | "{t1}";']
+    elif kind == "free_names":
+        out += [f"int K = {k};",
+                f"Signal base = {a0} + {rng.randint(1, 9)};",
+                "func inner(Signal s) {",
+                "    return s * K + base;",
+                "}",
+                "func outer(Signal base, int K) {",
+                "    Signal t = inner(base) + K;",
+                "    return t;",
+                "}",
+                "func outer2(Signal s) {",
+                "    Signal base = s * 2;",
+                f"    int K = {k + 5};",
+                "    return inner(s) + base + K;",
+                "}",
+                f"Signal o1 = outer({b0}, {rng.randint(5, 9)});",
+                f"Signal o2 = outer2({a0});",
+                "Signal o3 = base + K;"]
+    else:
+        out += ["func acc(Signal s, int k) {",
+                f'    Memory c: "{t1}";',
+                f'    c.write((s + k) | "{t1}", when=(s > k));',
+                "    return c.read();",
+                "}",
+                f"for i in 0..{rng.randint(2, 3)} {{",
+                f"    Signal v = acc({a0}, i);",
+                '    Entity l = place("small-lamp", i * 2, 12);',
+                "    l.enable = v > i;",
+                "}"]
+    return out
+
+
 def gen_functions(seed: int) -> str:
     rng = random.Random(seed)
     lines, names = _inputs(rng, rng.randint(1, 3))
@@ -587,6 +671,8 @@ def gen_functions(seed: int) -> str:
         lines.append("for x in 0..3 {")
         lines.append(f"    Entity q = lamp_at(x * 3 - 4, y - 9, {a0});")
         lines.append("}")
+    if rng.random() < 0.5:
+        lines += _scoping_block(rng, names)
     for k in range(rng.randint(1, 3)):
         fn, params = rng.choice(funcs)
         args = []
@@ -598,6 +684,54 @@ def gen_functions(seed: int) -> str:
                 args.append(rng.choice(names)[0] if r < 0.6 else (f"({rng.choice(names)[0]} + 1)" if r < 0.8 else str(rng.randint(0, 9))))
         lines.append(f"Signal y{k + 1} = {fn}({', '.join(args)});")
     return "\n".join(lines) + "\n"
+
+
+def _loop_scope_body(rng, head, names):
+    """C16: names declared in the body are local to one iteration; bodies that declare memories or call functions"""
+    x = names[0][0]
+    tx = names[0][1]
+    kind = rng.choice(["shadow", "shadow", "memory", "memory_outer", "func_memory"])
+    out = []
+    if kind == "shadow":
+        out += [f"Signal t = {x} + 1;", f"int k = {rng.randint(2, 6)};", 'Entity lamp = place("small-lamp", 0, 14);',
+                head + " {",
+                f"    Signal t = {x} * (i + 2);",
+                "    int k = i + 10;",
+                '    Entity lamp = place("small-lamp", i, 7);',
+                "    lamp.enable = (t + k) > 12;",
+                "}",
+                "Signal after = t + k;",
+                f"lamp.enable = {x} < 0;"]
+    elif kind == "memory":
+        out += [head + " {",
+                f'    Memory m: "{tx}";',
+                f"    m.write({x} + i, when=({x} > i));",
+                '    Entity lamp = place("small-lamp", i, 7);',
+                "    lamp.enable = m.read() > i;",
+                "}",
+                f"Signal after = {x} + 1;"]
+    elif kind == "memory_outer":
+        out += [f'Memory m: "{tx}";', f"m.write({x}, when=({x} > 0));",
+                head + " {",
+                f'    Memory m: "{tx}";',
+                f"    m.write({x} * 2 + i, when=({x} < i));",
+                '    Entity lamp = place("small-lamp", i, 7);',
+                "    lamp.enable = m.read() > 3;",
+                "}",
+                "Signal after = m.read();"]
+    else:
+        out += ["func held(Signal s, int k) {",
+                f'    Memory c: "{tx}";',
+                "    c.write(s + k, when=(s > k));",
+                "    return c.read();",
+                "}",
+                head + " {",
+                f"    Signal v = held({x}, i);",
+                '    Entity lamp = place("small-lamp", i, 7);',
+                "    lamp.enable = v > 2;",
+                "}",
+                f"Signal after = {x} + 1;"]
+    return out
 
 
 def gen_loops(seed: int) -> str:
@@ -617,7 +751,7 @@ def gen_loops(seed: int) -> str:
     else:
         head = f"for i in {a}..{b}" + (f" step {s}" if s else "")
     body_kind = rng.random()
-    if body_kind < 0.2:
+    if body_kind < 0.12:
         # an outer entity variable is re-bound by the body: every iteration configures the previous placement
         lines.append('Entity last = place("small-lamp", 0, 9);')
         lines.append(head + " {")
@@ -627,7 +761,9 @@ def gen_loops(seed: int) -> str:
         lines.append(f"last.enable = {x} > 99;")
         lines.append(f"Signal after = {x} + 1;")
         return "\n".join(lines) + "\n"
-    if body_kind < 0.3:
+    if body_kind < 0.27:
+        return "\n".join(lines + _loop_scope_body(rng, head, names)) + "\n"
+    if body_kind < 0.35:
         lines.append("func scaled(Signal s, int k) {")
         lines.append("    return s * k;")
         lines.append("}")
